@@ -209,7 +209,7 @@ Theorem dsm_homogeneous_in_moment : forall depth geo named p q a c,
   kernels_homogeneous kder kpot ->
   dsm_colk contains K rule tol kder kpot depth geo named (p, q) = Some c ->
   dsm_colk contains K rule tol kder kpot depth geo named (p, pscale ROps a q) = Some (map (Rmult a) c).
-Proof. exact (SourcesLinear.dsm_homogeneous_in_moment contains K rule tol). Qed.
+Proof. intros depth. exact (SourcesLinear.dsm_homogeneous_in_moment contains K rule tol depth kder kpot). Qed.
 
 Theorem kernels_linear_homogeneous : kernels_linear kder kpot -> kernels_homogeneous kder kpot.
 Proof. exact (SourcesLinear.kernels_linear_homogeneous kder kpot). Qed.
